@@ -18,14 +18,24 @@ func rulesC04(c *Ctx) {
 	p := c.P
 	tt := p.tokenTable()
 	refs := p.refGraph()
-	reach := reachable(refs, p.parserEntryPoints())
+	// everything the parser can run: the entry points, every method of the
+	// parser's own types (statement parsers are reached through the handler
+	// table built at init, which the reference graph does not follow) and
+	// whatever those reference (validate, Normalize, ... on the nodes they build)
+	roots := p.parserEntryPoints()
+	for _, f := range p.SortedFuncs() {
+		if parserTypes[recvTypeName(f)] {
+			roots = append(roots, f)
+		}
+	}
+	reach := reachable(refs, roots)
 	c.Assume("a token that is pushed back and scanned again is the same token (the ring replays it; C04.tokring bounds the depth)")
 
 	// ---- panic constructs in everything parsing can reach ----
 	t := &totality{c: c, prop: "C04", inScope: func(fb funcBody) bool {
 		return parserTypes[recvTypeName(fb.Decl)] || reach[fb.Decl]
 	}}
-	t.switchReach = func(fb funcBody, ts *ast.TypeSwitchStmt, missing []string) (bool, string) {
+	t.switchReach = func(fb funcBody, ts *ast.TypeSwitchStmt, missing []string) (int, string) {
 		return signBranchReach(c, tt, fb, ts, missing)
 	}
 	t.run()
@@ -60,10 +70,10 @@ func rulesC04(c *Ctx) {
 // each token the enclosing case admits, the types the recursive call can
 // return are computed by constant propagation + dynamic-type sets and must be
 // among the type switch's cases.
-func signBranchReach(c *Ctx, tt *tokenTable, fb funcBody, ts *ast.TypeSwitchStmt, missing []string) (bool, string) {
+func signBranchReach(c *Ctx, tt *tokenTable, fb funcBody, ts *ast.TypeSwitchStmt, missing []string) (int, string) {
 	p := c.P
 	if fb.Lit != nil || FuncName(fb.Decl) != "(*Parser).parseUnaryExpr" || tt == nil {
-		return false, ""
+		return 0, ""
 	}
 	// the enclosing case clause's token list
 	var toks []int64
@@ -98,13 +108,44 @@ func signBranchReach(c *Ctx, tt *tokenTable, fb funcBody, ts *ast.TypeSwitchStmt
 		return true
 	})
 	if len(toks) == 0 {
-		return false, ""
+		return 0, ""
+	}
+	// the clause must belong to a switch over a token scanned *after* the sign
+	// (a nested switch), not to the function's own dispatch switch
+	nest := 0
+	var walk func(n ast.Node, depth int) bool
+	walk = func(n ast.Node, depth int) bool {
+		found := false
+		ast.Inspect(n, func(m ast.Node) bool {
+			if found {
+				return false
+			}
+			if m == ast.Node(ts) {
+				found = true
+				nest = depth
+				return false
+			}
+			if sw, ok := m.(*ast.SwitchStmt); ok && m != n {
+				if sw.Tag != nil && types.Identical(p.Info.TypeOf(sw.Tag), tt.Type) {
+					if walk(sw.Body, depth+1) {
+						found = true
+					}
+					return false
+				}
+			}
+			return true
+		})
+		return found
+	}
+	walk(fb.Body, 0)
+	if nest < 2 {
+		return 0, ""
 	}
 	f := p.SSAFunc(fb.Decl)
 	tag := switchTag(f, 8)
 	scanWS := p.SSAFunc(p.Method("Parser", "ScanIgnoreWhitespace"))
 	if f == nil || tag == nil || scanWS == nil {
-		return false, ""
+		return 0, ""
 	}
 	var first *ssa.Call
 	for _, in := range f.Blocks[0].Instrs {
@@ -130,16 +171,17 @@ func signBranchReach(c *Ctx, tt *tokenTable, fb funcBody, ts *ast.TypeSwitchStmt
 			}
 			set := tsets.of(rp.Instr.Results[0], map[ssa.Value]bool{})
 			if set.top {
-				return false, ""
+				return 0, ""
 			}
 			for n := range set.types {
 				got[n] = true
 			}
 		}
 	}
+	handled := assertedAway(p, fb, ts)
 	var reachMissing []string
 	for _, m := range missing {
-		if got[m] {
+		if got[m] && !handled[m] {
 			reachMissing = append(reachMissing, m)
 		}
 	}
@@ -149,13 +191,13 @@ func signBranchReach(c *Ctx, tt *tokenTable, fb funcBody, ts *ast.TypeSwitchStmt
 	}
 	sort.Strings(names)
 	if len(reachMissing) > 0 {
-		return false, ""
+		return -1, "parseUnaryExpr can return " + strings.Join(reachMissing, ", ") + " for an operand after a sign, and the switch has no case for it"
 	}
 	var tn []string
 	for _, v := range toks {
 		tn = append(tn, tt.Name[v])
 	}
-	return true, fmt.Sprintf("after a sign the operand starts with one of %s, for which parseUnaryExpr can only return %s — all handled by the switch", strings.Join(tn, ", "), strings.Join(names, ", "))
+	return 1, fmt.Sprintf("after a sign the operand starts with one of %s, for which parseUnaryExpr can only return %s — all handled by the switch", strings.Join(tn, ", "), strings.Join(names, ", "))
 }
 
 func tokringC04(c *Ctx) {
@@ -569,4 +611,55 @@ func typedNilC04(c *Ctx) {
 	}
 	c.OK("C04.typednil", "interface nil tests examined", 0, fmt.Sprintf("%d comparisons of an interface value with nil; none is on a freshly boxed pointer", n))
 	c.Floor("C04.typednil", n, 40)
+}
+
+// assertedAway lists the types a statement before the type switch ts already
+// took out of play: `if x, ok := op.(*T); ok { ...return }` with the bare ok as
+// its whole condition. A condition that adds anything lets *T through.
+func assertedAway(p *Program, fb funcBody, ts *ast.TypeSwitchStmt) map[string]bool {
+	out := map[string]bool{}
+	op := identOf(typeSwitchOperand(ts))
+	if op == nil {
+		return out
+	}
+	opObj := p.Info.ObjectOf(op)
+	ast.Inspect(fb.Body, func(n ast.Node) bool {
+		blk, ok := n.(*ast.BlockStmt)
+		if !ok {
+			return true
+		}
+		k := indexOf(blk.List, ts)
+		if k < 0 {
+			return true
+		}
+		for _, st := range blk.List[:k] {
+			is, ok := st.(*ast.IfStmt)
+			if !ok || is.Init == nil || is.Else != nil {
+				continue
+			}
+			as, ok := is.Init.(*ast.AssignStmt)
+			if !ok || len(as.Lhs) != 2 || len(as.Rhs) != 1 {
+				continue
+			}
+			ta, ok := ast.Unparen(as.Rhs[0]).(*ast.TypeAssertExpr)
+			if !ok || ta.Type == nil {
+				continue
+			}
+			x := identOf(ta.X)
+			okID := identOf(as.Lhs[1])
+			cond := identOf(is.Cond)
+			if x == nil || okID == nil || cond == nil || p.Info.ObjectOf(x) != opObj || p.Info.ObjectOf(cond) != p.Info.ObjectOf(okID) {
+				continue
+			}
+			if len(is.Body.List) == 0 {
+				continue
+			}
+			if _, isRet := is.Body.List[len(is.Body.List)-1].(*ast.ReturnStmt); !isRet {
+				continue
+			}
+			out[p.TypeStr(p.Info.TypeOf(ta.Type))] = true
+		}
+		return true
+	})
+	return out
 }
